@@ -146,9 +146,10 @@ class Evaluator:
             if t:
                 self.run(s[5])
         elif k == "loop":
-            self.loops.append({"i": 0, "elt": None})
-            for i in range(s[1]):
-                self.loops[-1]["i"] = i
+            start, step = (s[4], s[5]) if len(s) > 4 else (0, 1)
+            self.loops.append({"i": start, "elt": None})
+            for j in range(s[1]):
+                self.loops[-1]["i"] = start + j * step
                 self.run(s[3])
             self.loops.pop()
         elif k in ("foreach", "enumerate"):
@@ -467,11 +468,17 @@ class HostGen:
         if kind == "loop":
             n = ch.weighted([1, 4, 4, 2, 1], "ln")
             form = "ctx" if ch.flag(1, 2, "lform") else "cb"
-            self.loops.append({"kind": "loop", "n": n, "form": form})
+            start, step = 0, 1
+            if self.ok("loop-start-step") and ch.flag(1, 3, "lss"):
+                start, step = ch.draw(3, "lstart"), 1 + ch.draw(2, "lstep")
+                self.kinds.add("loop-start-step")
+            # "n" = one more than the largest index value the body sees (what an indexed array must hold)
+            top = start + max(n - 1, 0) * step + 1
+            self.loops.append({"kind": "loop", "n": top, "form": form})
             b = self.body()
             self.loops.pop()
             self.kinds.add("loop_" + form)
-            return [("loop", n, form, b)]
+            return [("loop", n, form, b, start, step)]
         if kind in ("foreach", "enumerate"):
             arrs = sorted(a for a, d in self.arrays.items() if d["full"])
             a = arrs[ch.draw(len(arrs), "fa")]
